@@ -26,6 +26,13 @@ CFG = {
         "files": ["src/geom2/curve2.rs", "src/geom3/curve3.rs"],
         "tol": {"*": 1e-9},
     },
+    "C04": {
+        "cases": {"quick": 3200, "thorough": 320000},
+        "level_text": "Theorems about the model of between_lengths: ill-posed requests yield nothing (decision logic stated outright), the walk stays within its fuel bound, telescoping of length-along over one edge; reversal; control-point precedence. Model (the Rust loop ported statement by statement, incl. the operator precedence of the control variant) tied to the Rust by a differential run with vertex-exact, seam, same-edge, last-edge and tol-apart requests and nested histories.",
+        "level_note": "Trusted: Lean kernel, Mathlib, hand-written model validated by the correspondence run; the 6*tol length bound of the oracle is argued in DESIGN.md, not proved; rounding not analysed.",
+        "files": ["src/geom2/curve2.rs", "src/airfoil/helpers.rs"],
+        "tol": {"*": 1e-9},
+    },
     "C12": {
         "cases": {"quick": 1600, "thorough": 160000},
         "level_text": "Theorems (pure combinatorics, for every list order = every hash-iteration order) about the model: edge table lists each undirected edge once with its count; boundary walk consumes every boundary edge exactly once and never runs out of fuel; flood fill (patches, voxel clusters) yields an exact partition within a linear fuel bound; box table closed/oriented (decide over the regenerated table), cylinder winding. Model tied to the Rust by exhaustive small face lists + random meshes on every check.",
